@@ -88,13 +88,20 @@ def paddedBox (b : Box K) (bd : V3 (K × K)) : Box K :=
     V3.smul (bd.z.2 - bd.z.1) b.vects.r2⟩,
    b.origin + M3.vecMul ⟨bd.x.1, bd.y.1, bd.z.1⟩ b.vects⟩
 
+/-- image flags of one atom at Cartesian position `p`. -/
+@[inline] def atomFlags (fl : K → Int) (b : Box K) (pbc : V3 Bool) (p : V3 K) : V3 Int :=
+  flagsOf fl pbc (b.cartToRel p)
+
+/-- new Cartesian position of one atom: `spos -= imageflags`, then unscaled with the *old* box. -/
+@[inline] def atomPos (fl : K → Int) (b : Box K) (pbc : V3 Bool) (p : V3 K) : V3 K :=
+  b.relToCart (subFlags (b.cartToRel p) (atomFlags fl b pbc p))
+
 /-- `System.wrap(return_imageflags=True)`: scaled positions with the *old* box, flags, positions
     rebuilt with the *old* box, then the box is replaced. -/
 def wrap (fl : K → Int) (pad : K) (b : Box K) (pbc : V3 Bool) (pos : List (V3 K)) : Wrapped K :=
-  let spos := pos.map b.cartToRel
-  ⟨paddedBox b (bounds pad pbc spos),
-   spos.map (fun s => b.relToCart (subFlags s (flagsOf fl pbc s))),
-   spos.map (flagsOf fl pbc)⟩
+  ⟨paddedBox b (bounds pad pbc (pos.map b.cartToRel)),
+   pos.map (atomPos fl b pbc),
+   pos.map (atomFlags fl b pbc)⟩
 
 /-- a point is inside a box, faces included (`Box.inside(inclusive=True)` in relative terms). -/
 def insideRel (s : V3 K) : Prop := 0 ≤ s.x ∧ s.x ≤ 1 ∧ 0 ≤ s.y ∧ s.y ≤ 1 ∧ 0 ≤ s.z ∧ s.z ≤ 1
